@@ -14,14 +14,14 @@ META = {
                  "of the real binary --types strict vs relaxed",
     "text": "Theorems C04_binop_partial, C04_store_partial, C04_argument_partial, C04_return_partial, "
             "C04_increment_partial, C04_statement_forms_partial and C04_boundaries_partial state, for all values "
-            "(integer kinds, bool, string), constness and operators: strict ... = Ok v -> relaxed ... = Ok v. Every "
+            "(integer kinds, float64 values that are integers, bool, string), constness and operators: strict ... = Ok v -> relaxed ... = Ok v; C04_float_literal_partial: a float literal with an integral value meeting an integer operand adapts in every mode (the result keeps the integer's kind). Every "
             "function of internal/language/bytecode that reads the type-strictness setting is regenerated from the "
             "source on each run and must be classified in coq/Arith/Sites.v (modelled boundary / same in strict and "
             "relaxed / strict only adds a rejection / observed only). The boundaries are compared with the real code on "
             "every (mode, declared kind, value kind, constness) cell, the implication itself is evaluated on the real "
-            "outputs, and generated strict-clean programs are run under both modes at several -o levels. "
+            "outputs, and generated strict-clean programs (random typed arithmetic; integer variables with integral float literals and float variables with integer literals; aliasing through return/argument/store for arrays, maps, structs) are run under both modes at several -o levels. "
             "partial: the per-boundary theorems are not lifted to whole programs by a VM simulation; comparison "
-            "operators, array constants, struct members and float/complex values are covered by the differential "
+            "operators, array constants, struct members, aliasing and non-integral float/complex values are covered by the differential "
             "runs only",
     "note": "Trusted: Coq kernel; coq/Arith/Model.v (tied by the correspondence), the classification in coq/Arith/Sites.v "
             "(argued in docs/C04.md), the regex translator lib/arith_util.strictness_sites, harness/C03/c03_test.go, the "
@@ -81,6 +81,32 @@ def gen_lines(ck, quick):
                 v, s = au.hv((k, 0, rng.choice(bnd[k]))), au.hv((ks, cs, rng.choice(bnd[ks])))
                 for mode in ("strict", "relaxed"):
                     add("I", mode, v, s)
+    # float64 values that are integers (the only float literals strict lets meet an integer) against every integer kind,
+    # either side, either constness, at every boundary
+    fl = [0, 1, 2, 3, 4, 7, -1, -2, 100, 300, 70000, 1 << 31, 1 << 53, 10 ** 15]
+    for k in au.IK:
+        for cf in (0, 1):
+            for ci in (0, 1):
+                for op in au.OPS:
+                    a = au.hv((k, ci, rng.choice(bnd[k])))
+                    f = au.hv(("float64", cf, rng.choice(fl)))
+                    for mode in ("strict", "relaxed"):
+                        add("B", mode, op, a, f)
+                        add("B", mode, op, f, a)
+            f = au.hv(("float64", cf, rng.choice(fl)))
+            v = au.hv((k, cf, rng.choice(bnd[k])))
+            for mode in au.MODES:
+                add("S", mode, au.hv((k, 0, 1)), f)
+                add("S", mode, "float64:0:1", v)
+                add("A", mode, k, f)
+                add("A", mode, "float64", v)
+                add("R", mode, k, f)
+                add("R", mode, "float64", v)
+            for mode in ("strict", "relaxed"):
+                add("I", mode, au.hv((k, 0, rng.choice(bnd[k]))), f)
+                add("I", mode, "float64:0:%d" % rng.choice(fl), v)
+    add("B", "strict", "div", "int:0:7", "float64:1:2")
+    add("B", "relaxed", "div", "int:0:7", "float64:1:2")
     return L
 
 
@@ -181,6 +207,91 @@ def gen_program(rng):
     return "\n".join(out) + "\n"
 
 
+def gen_mixed_program(rng):
+    """strict-clean arithmetic mixing integer variables with integral float literals and float variables with
+    integer literals, in every operator and on both sides, printing %T %v of every result"""
+    out = ["package main", 'import "fmt"']
+    ks = rng.sample(au.IK, 3)
+    for i, k in enumerate(ks):
+        out.append("func h%d(a %s) %s {\n    return a %s %d.0\n}" % (i, k, k, rng.choice("+-*/"), rng.choice([1, 2, 3, 4])))
+    out.append("func main() {")
+    n = 0
+    for i, k in enumerate(ks):
+        v = rng.choice([7, 9, 15, 101, min(au.kmax(k), 12345)])
+        out.append("    var n%d %s = %d" % (i, k, v))
+        for op in "+-*/":
+            lit = "%d.0" % rng.choice([2, 3, 4, 7])
+            for e in ("n%d %s %s" % (i, op, lit), "%s %s n%d" % (lit, op, i)):
+                n += 1
+                out.append("    q%d := %s" % (n, e))
+                out.append('    fmt.Printf("q%d %%T %%v\\n", q%d, q%d)' % (n, n, n))
+        out.append("    n%d %s= %d.0" % (i, rng.choice("+-*/"), rng.choice([2, 3, 4])))
+        out.append("    n%d = n%d %s %d.0" % (i, i, rng.choice("+-*/"), rng.choice([2, 3])))
+        out.append("    n%d = h%d(n%d)" % (i, i, i))
+        out.append("    n%d = h%d(%d.0)" % (i, i, rng.choice([3, 5, 8])))
+        out.append("    n%d = n%d + 3.0" % (i, i))
+        out.append('    fmt.Printf("n%d %%T %%v\\n", n%d, n%d)' % (i, i, i))
+    for i, k in enumerate(("float64", "float32")):
+        out.append("    var f%d %s = %s" % (i, k, rng.choice(["7.5", "0.25", "10.0", "3"])))
+        for op in "+-*/":
+            for e in ("f%d %s %d" % (i, op, rng.choice([2, 3, 4])), "%d %s f%d" % (rng.choice([2, 3, 5]), op, i)):
+                n += 1
+                out.append("    q%d := %s" % (n, e))
+                out.append('    fmt.Printf("q%d %%T %%v\\n", q%d, q%d)' % (n, n, n))
+        out.append("    f%d %s= %d" % (i, rng.choice("+-*/"), rng.choice([2, 4])))
+        out.append('    fmt.Printf("f%d %%T %%v\\n", f%d, f%d)' % (i, i, i))
+    out.append("}")
+    return "\n".join(out) + "\n"
+
+
+ELEMS = [("int", ["1", "2", "3"], "50", "9"), ("float64", ["1.5", "2.5", "3.5"], "9.5", "0.25"),
+         ("string", ['"a"', '"b"', '"c"'], '"zz"', '"q"'), ("bool", ["true", "false", "true"], "false", "true"),
+         ("int32", ["1", "2", "3"], "int32(50)", "int32(9)"), ("byte", ["1", "2", "3"], "byte(50)", "byte(9)"),
+         ("int64", ["1", "2", "3"], "int64(50)", "int64(9)"), ("float32", ["1.5", "2.5", "3.5"], "float32(9.5)", "float32(0.25)")]
+
+
+def gen_alias_program(rng, which):
+    """aliasing-sensitive: obtain a value through a coercion boundary (return, argument, store), write through one
+    name, read through the other. which = index into ELEMS, or 'map' / 'struct'."""
+    out = ["package main", 'import "fmt"']
+    if which == "map":
+        out += ["func idm(mm map[string]int) map[string]int {\n    return mm\n}",
+                "func setm(mm map[string]int) {\n    mm[\"z\"] = 26\n}", "func main() {",
+                '    m := map[string]int{"a": 1}', "    gm := idm(m)", '    gm["b"] = %d' % rng.randint(2, 9),
+                '    fmt.Println("r1", len(m), m["b"])', "    setm(m)", '    fmt.Println("r2", len(m), m["z"])',
+                "    var m2 map[string]int", "    m2 = m", '    m2["c"] = 3', '    fmt.Println("r3", len(m), m["c"])',
+                "    m3 := m", '    m["d"] = 4', '    fmt.Println("r4", len(m3), m3["d"])', "}"]
+        return "\n".join(out) + "\n"
+    if which == "struct":
+        out += ["type Point struct {\n    x int\n    tags []string\n}", "func bump(q Point) Point {\n    q.x = 9\n    return q\n}",
+                "func bumpp(q *Point) {\n    q.x = 5\n}", "func idp(q *Point) *Point {\n    return q\n}",
+                "func tags(q Point) []string {\n    return q.tags\n}", "func main() {",
+                '    p := Point{x: 1, tags: []string{"a", "b"}}', "    q := bump(p)", '    fmt.Println("r1", p.x, q.x)',
+                "    bumpp(&p)", '    fmt.Println("r2", p.x)', "    pp := idp(&p)", "    pp.x = %d" % rng.randint(6, 60),
+                '    fmt.Println("r3", p.x)', "    r := p", "    r.x = 100", '    fmt.Println("r4", p.x, r.x)',
+                '    r.tags[0] = "shared"', '    fmt.Println("r5", p.tags, r.tags)', "    t := tags(p)", '    t[1] = "viaret"',
+                '    fmt.Println("r6", p.tags, t)', "}"]
+        return "\n".join(out) + "\n"
+    T, init, X, Y = ELEMS[which]
+    lit = "[]%s{%s}" % (T, ", ".join(init))
+    out += ["var table []%s = %s" % (T, lit), "func lookup() []%s {\n    return table\n}" % T,
+            "func same(a []%s) []%s {\n    return a\n}" % (T, T), "func set(a []%s) {\n    a[0] = %s\n}" % (T, X),
+            "type Box struct {\n    items []%s\n}" % T, "func (b *Box) Items() []%s {\n    return b.items\n}" % T, "func main() {"]
+    blocks = [
+        ["    g := lookup()", "    g[1] = %s" % X, '    fmt.Println("ret1", table, g)', "    table[2] = %s" % Y, '    fmt.Println("ret2", table, g)'],
+        ["    f := %s" % lit, "    h := same(f)", "    h[0] = %s" % X, '    fmt.Println("arg-ret1", f, h)', "    f[2] = %s" % Y,
+         '    fmt.Println("arg-ret2", f, h)', "    set(f)", '    fmt.Println("arg", f, h)'],
+        ["    s0 := %s" % lit, "    var c []%s" % T, "    c = s0", "    c[1] = %s" % Y, '    fmt.Println("store1", s0, c)', "    d := s0",
+         "    d[2] = %s" % X, '    fmt.Println("store2", s0, d)'],
+        ["    bx := Box{items: %s}" % lit, "    it := bx.Items()", "    it[0] = %s" % X, '    fmt.Println("method", bx.items, it)'],
+    ]
+    rng.shuffle(blocks)
+    for b in blocks:
+        out += b
+    out.append("}")
+    return "\n".join(out) + "\n"
+
+
 def run_ego(ck, ego, path, mode, opt):
     for attempt in range(3):
         try:
@@ -204,7 +315,7 @@ def run(ck):
     ck.trusted("harness/C03/c03_test.go, lib/arith_util.py (generators, regex translator strictness_sites), props/C04.py program generator",
                "classification of read sites in coq/Arith/Sites.v")
     thms = ["C04_binop_partial", "C04_store_partial", "C04_argument_partial", "C04_return_partial", "C04_increment_partial",
-            "C04_statement_forms_partial", "C04_boundaries_partial"]
+            "C04_statement_forms_partial", "C04_float_literal_partial", "C04_boundaries_partial"]
     ck.coq_stage(GROUP, module="PropertiesC04", theorems=thms)
     replay = json.load(open(ck.replay_file))["replay"] if ck.replay_file else None
 
@@ -277,7 +388,13 @@ def run(ck):
         if not okb:
             ck.violation("ego-build", "ego does not build:\n" + ego[-1500:], replay={"log": ego[-3000:]}, found_input=False)
         else:
-            progs = [gen_program(ck.rng) for _ in range(40 if quick else 400)] if replay is None else [replay["program"]]
+            if replay is None:
+                nrand = 24 if quick else 400
+                progs = [gen_program(ck.rng) for _ in range(nrand)]
+                progs += [gen_mixed_program(ck.rng) for _ in range(4 if quick else 40)]
+                progs += [gen_alias_program(ck.rng, w) for w in list(range(len(ELEMS))) + ["map", "struct"]]
+            else:
+                progs = [replay["program"]]
             opts = (0, 2) if quick else (0, 1, 2, 3)
             nrun = 0
             from concurrent.futures import ThreadPoolExecutor
@@ -312,6 +429,7 @@ def run(ck):
             clean = len({j[0] for j in cleanjobs})
             ck.cov["evaluations"] += nrun
             ck.cov["input_distribution"]["programs_generated"] = len(progs)
+            ck.cov["input_distribution"]["program_families"] = "random typed arithmetic / int-var x integral-float-literal and float-var x int-literal / aliasing through return, argument, store (8 element types, map, struct)"
             ck.cov["input_distribution"]["programs_strict_clean"] = clean
             ck.cov["input_distribution"]["ego_runs"] = nrun
             if progs:
